@@ -4,7 +4,9 @@
 From Coq Require Import ZArith List Bool Lia PeanoNat.
 From FV Require Import Common.ListX Common.Store Common.StoreSim Model.C10_Model.
 From FV Require gen.Gen_for_each_client gen.Gen_tree_util gen.Gen_c10_fed_avg gen.Gen_c10_fed_prox gen.Gen_c10_mime gen.Gen_c10_mime_lite
-  gen.Gen_c10_agnostic_fed_avg gen.Gen_c10_hyp_cluster gen.Gen_c10_apfl gen.Gen_c10_compression gen.Gen_c10_optimizers.
+  gen.Gen_c10_agnostic_fed_avg gen.Gen_c10_hyp_cluster gen.Gen_c10_apfl gen.Gen_c10_compression gen.Gen_c10_optimizers
+  gen.Gen_c10_scan_for_each_client gen.Gen_c10_scan_tree_util gen.Gen_c10_scan_client_datasets gen.Gen_c10_scan_models
+  gen.Gen_c10_scan_walsh_hadamard.
 Import ListNotations.
 
 (* ---------------- well-formedness of generated scripts ---------------- *)
@@ -439,3 +441,18 @@ Proof.
   - cbn. intros k0 l0 H. discriminate.
   - specialize (OA _ _ L). cbn in OA. lia.
 Qed.
+
+
+(* no module in the closure of the built-in algorithms and aggregators reads a value that depends on the interpreter
+   process or on the moment (hash(), id(), time, uuid, os.environ, unseeded random): scanned on this run *)
+Definition process_dependent_uses_total : nat :=
+  Gen_c10_fed_avg.process_dependent_uses + Gen_c10_fed_prox.process_dependent_uses + Gen_c10_mime.process_dependent_uses +
+  Gen_c10_mime_lite.process_dependent_uses + Gen_c10_agnostic_fed_avg.process_dependent_uses +
+  Gen_c10_hyp_cluster.process_dependent_uses + Gen_c10_apfl.process_dependent_uses +
+  Gen_c10_compression.process_dependent_uses + Gen_c10_optimizers.process_dependent_uses +
+  Gen_c10_scan_for_each_client.process_dependent_uses + Gen_c10_scan_tree_util.process_dependent_uses +
+  Gen_c10_scan_client_datasets.process_dependent_uses + Gen_c10_scan_models.process_dependent_uses +
+  Gen_c10_scan_walsh_hadamard.process_dependent_uses.
+
+Lemma no_process_dependent_values : process_dependent_uses_total = 0.
+Proof. reflexivity. Qed.
